@@ -94,7 +94,12 @@ class Ctx:
             o["detail"] = detail
         self.obligations.append(o)
 
-    def bad(self, rule, func, node, message, what=None, extra=None, module=None, structural=False):
+    def bad(self, rule, func, node, message, what=None, extra=None, module=None, structural=False, robust=False):
+        if robust:
+            # the evidence comes from a general analysis (effects, purity, name resolution, a counter-example length ...) and
+            # names no construct of the reference source: it stands however far the module is from the reference (no gate)
+            extra = dict(extra or {})
+            extra["robust"] = True
         if isinstance(node, MISSING):
             raise AnalysisError("%s: construct not found (%s)" % (rule, message))
         if structural:
@@ -138,7 +143,7 @@ class Ctx:
                                  "status": "refuted", "detail": message})
         return f
 
-    def check(self, cond, rule, func, node, what, message=None, detail=None, structural=False):
+    def check(self, cond, rule, func, node, what, message=None, detail=None, structural=False, robust=False):
         if isinstance(node, MISSING):
             if not cond:
                 raise AnalysisError("%s: construct not found for clause '%s' (%s)" % (rule, what, message or "idiom not recognised"))
@@ -148,7 +153,7 @@ class Ctx:
                 func.loc() if not isinstance(func, str) else func)
             self.ok(rule, where, what, detail)
         else:
-            self.bad(rule, func, node, message or ("not satisfied: " + what), what, structural=structural)
+            self.bad(rule, func, node, message or ("not satisfied: " + what), what, structural=structural, robust=robust)
         return bool(cond)
 
     def error(self, rule, message):
@@ -256,11 +261,14 @@ class Ctx:
         self.info["distance_limit"] = refdist.LIMIT
         if not far or os.environ.get("PDSA_RAW") or os.environ.get("PDSA_NO_GATE"):
             return
+        kept = [f for f in self.findings if f.extra.get("robust")]
         for f in self.findings:
+            if f.extra.get("robust"):
+                continue
             self.error(f.rule, "cannot decide: %s differ(s) from the reference tree by %s statements (limit %d), the clause '%s' names "
                        "constructs of the reference source -- %s" % (", ".join(m.split("/")[-1] for m, _ in far),
                                                                      "/".join(str(d) for _, d in far), refdist.LIMIT, f.clause[:70], f.message[:160]))
-        self.findings = []
+        self.findings = kept
 
     def postprocess(self):
         self.apply_anchor_table()
